@@ -60,6 +60,7 @@ Record kx (w w' : world) : Prop := mkKx {
   kx_qlog : qlog (glog w') = qlog (glog w);
   kx_cfg : cfg w' = cfg w;
   kx_tided : forall tid c, In (tid, HCollector c) (tided w') -> In (tid, HCollector c) (tided w);
+  kx_ctimers : forall when tid c, In (when, tid, HCollector c) (timers w') -> In (when, tid, HCollector c) (timers w);
   kx_ready : forall h, In (None, h) (ready w') -> In (None, h) (ready w) \/ nocoll_b h = true;
   kx_sess : exists l, slog (glog w') = slog (glog w) ++ l /\ osteps (outgoing (sess w)) l = Some (outgoing (sess w')) }.
 
@@ -67,8 +68,9 @@ Lemma kx_refl w : kx w w.
 Proof. constructor; auto. exists []. rewrite app_nil_r. split; reflexivity. Qed.
 Lemma kx_trans a b c : kx a b -> kx b c -> kx a c.
 Proof.
-  intros [A1 A2 A3 A4 A5 A6 (m1 & As1 & As2)] [B1 B2 B3 B4 B5 B6 (m2 & Bs1 & Bs2)]. constructor; try congruence.
+  intros [A1 A2 A3 A4 A5 At A6 (m1 & As1 & As2)] [B1 B2 B3 B4 B5 Bt B6 (m2 & Bs1 & Bs2)]. constructor; try congruence.
   - intros tid x H. apply A5, B5, H.
+  - intros when tid x H. apply At, Bt, H.
   - intros h H. destruct (B6 h H) as [H1|H1]; [apply A6; exact H1|right; exact H1].
   - exists (m1 ++ m2). rewrite Bs1, As1, app_assoc. split; [reflexivity|]. rewrite osteps_app, As2. exact Bs2.
 Qed.
@@ -76,13 +78,14 @@ Lemma same_kx w w' : same w w' -> kx w w'.
 Proof.
   intros Hs. constructor; try apply Hs.
   - intros tid c. rewrite (same_tided _ _ Hs). auto.
+  - intros when tid c. rewrite (sm_tmr _ _ Hs). auto.
   - intros h Hin. destruct (sm_ready _ _ Hs) as (l & A & B). rewrite A in Hin. apply in_app_iff in Hin.
     destruct Hin as [Hin|Hin]; [left; exact Hin|right]. rewrite Forall_forall in B. apply (B _ Hin).
 Qed.
 
 Lemma kx_K w w' : kx w w' -> Kinv w -> Kinv w'.
 Proof.
-  intros [A1 A2 A3 A4 A5 A6 (m & As1 & As2)] [K1 K2 K3 K4 K5 K6 K7 K8]. constructor.
+  intros [A1 A2 A3 A4 A5 At A6 (m & As1 & As2)] [K1 K2 K3 K4 K5 K6 K7 K8]. constructor.
   - intros d. unfold w_pending. rewrite (open_collector_frame w w' A1 A2 d).
     rewrite <- (lf_qlog d (glog w')), <- (lq_qlog d (glog w')), A3, lf_qlog, lq_qlog. apply K1.
   - intros c co. rewrite A1, A2. apply K2.
@@ -106,27 +109,30 @@ Proof. intros H w. apply same_kx, H. Qed.
 Ltac nosess := exists []; rewrite app_nil_r; split; reflexivity.
 Lemma Xk_call_later d h w : nocoll_b h = true -> kx w (snd (call_later d h w)).
 Proof.
-  intros Hc. constructor; try reflexivity; [| |nosess].
+  intros Hc. constructor; try reflexivity; [| | |nosess].
   - intros tid c Hin. apply in_tided_call_later in Hin. destruct Hin as [Hin|Hin]; [|exact Hin].
     injection Hin as _ <-. discriminate.
+  - intros when tid c Hin. cbn in Hin. apply in_app_iff in Hin. destruct Hin as [Hin|[Hin|[]]]; [exact Hin|].
+    inversion Hin; subst. discriminate.
   - intros h0 Hin. left. exact Hin.
 Qed.
 Lemma Xk_cancel tid : Xk (cancel_timer tid).
-Proof. intros w. constructor; try reflexivity; [auto|auto|nosess]. Qed.
+Proof. intros w. constructor; try reflexivity; [auto|auto|auto|nosess]. Qed.
 Lemma Xk_cancel_opt o : Xk (cancel_opt o). Proof. destruct o; [apply Xk_cancel|intros w; apply kx_refl]. Qed.
 Lemma Xk_put_store st s : Xk (put_store st s).
 Proof.
   intros w. destruct (put_store_frame st s w) as (F1 & F2 & F3 & _ & _ & F6).
-  constructor; [exact F6| | | | | |]; try (destruct st as [|i]; cbn; [reflexivity|destruct (aget N.eqb i (insts w)); reflexivity]).
+  constructor; [exact F6| | | | | | |]; try (destruct st as [|i]; cbn; [reflexivity|destruct (aget N.eqb i (insts w)); reflexivity]).
   - intros tid c. rewrite put_store_tided. auto.
+  - intros when tid c. rewrite F1. auto.
   - intros h. rewrite F2. auto.
   - exists []. rewrite app_nil_r. destruct st as [|i]; cbn; [split; reflexivity|destruct (aget N.eqb i (insts w)); split; reflexivity].
 Qed.
-Lemma Xk_put_task t tk : Xk (put_task t tk). Proof. intros w. constructor; try reflexivity; [auto|auto|nosess]. Qed.
-Lemma Xk_put_inst i x : Xk (put_inst i x). Proof. intros w. constructor; try reflexivity; [auto|auto|nosess]. Qed.
+Lemma Xk_put_task t tk : Xk (put_task t tk). Proof. intros w. constructor; try reflexivity; [auto|auto|auto|nosess]. Qed.
+Lemma Xk_put_inst i x : Xk (put_inst i x). Proof. intros w. constructor; try reflexivity; [auto|auto|auto|nosess]. Qed.
 Lemma Xk_call_soon h : nocoll_b h = true -> Xk (call_soon h).
 Proof.
-  intros Hc w. constructor; try reflexivity; [| |nosess].
+  intros Hc w. constructor; try reflexivity; [|auto| |nosess].
   - intros tid c Hin. unfold tided, rdy, call_soon in *. cbn [ready set_ready timers] in Hin. rewrite flat_map_app in Hin. cbn in Hin.
     rewrite app_nil_r in Hin. exact Hin.
   - intros h0 Hin. cbn [call_soon ready set_ready] in Hin. apply in_app_iff in Hin. destruct Hin as [Hin|[Hin|[]]]; [left; exact Hin|right].
@@ -179,7 +185,7 @@ Qed.
 Lemma Xk_new_task k : Xk (fun w => snd (new_task k w)).
 Proof.
   intros w. unfold new_task. cbn [snd]. eapply kx_trans; [|apply Xk_call_soon; reflexivity].
-  constructor; try reflexivity; [auto|auto|nosess].
+  constructor; try reflexivity; [auto|auto|auto|nosess].
 Qed.
 Lemma Xk_finish_task t : Xk (finish_task t).
 Proof. intros w. unfold finish_task. destruct (get_task t w); [apply Xk_put_task|apply kx_refl]. Qed.
@@ -732,6 +738,7 @@ Proof.
   set (w1 := fold_left (fun acc h => call_soon h acc) arrivals w) in *.
   constructor; try reflexivity.
   - intros tid c Hin. apply Hsub. exact Hin.
+  - intros when tid c Hin. cbn [timers set_timers] in Hin. apply filter_In in Hin. apply Hin.
   - intros h Hin. cbn [ready set_timers set_ready] in Hin. apply in_app_iff in Hin. destruct Hin as [Hin|Hin]; [left; exact Hin|].
     apply in_map_iff in Hin. destruct Hin as (t & E & _). discriminate.
   - exists []. rewrite app_nil_r. split; reflexivity.
